@@ -64,6 +64,20 @@ def cases(ctx):
                                 yield {'history': h, 'writer': writer, 'fmt': fmt, 'file': fk, 'records': rs, 'shape': shape}
                             i += 1
                             n += 1
+    # hundreds of other writers finalised between the first and the second finalisation of the observed one
+    for h in histories(3):
+        if len(h) < 2:
+            continue
+        for shape in ('nested', 'sequential'):
+            if shape == 'sequential' and not any(t.startswith('exit') for t in h):
+                continue
+            for writer in ('VbsWriter', 'IpmWriter'):
+                for fmt in ('vbs', '1014'):
+                    if ctx.mine(i):
+                        yield {'history': h, 'writer': writer, 'fmt': fmt, 'file': 'bytesio', 'records': 'three', 'shape': shape,
+                               'others': 150 if (i % 2) else 400}
+                    i += 1
+                    n += 1
     if ctx.shard == 0:
         ctx.exhaustive_subspace('all finalisation histories of length 1..%d x writers x formats x file kinds x record sets'
                                 % maxlen, n)
@@ -93,6 +107,7 @@ class Driver:
     def __init__(self, ctx, case):
         self.ctx = ctx
         self.case = case
+        self.others_done = False
         self.events = []         # (token, exception type or None)
         self.snapshots = []      # file bytes after each finalisation
         m = ctx.mciipm
@@ -112,6 +127,31 @@ class Driver:
             self.w = m.VbsWriter(self.f, blocked=blocked)
             self.items = raw_records(case['records'])
 
+    def others(self):
+        """
+        Between this writer's first finalisation and the next one, other writers come and go: whatever remembers that THIS
+        writer is finalised must not be a bounded or shared memory that other writers push it out of.
+        """
+        n = self.case.get('others', 0)
+        if not n or self.others_done:
+            return
+        self.others_done = True
+        m = self.ctx.mciipm
+        for j in range(n):
+            sink = io.BytesIO()
+            if j % 3 == 2:
+                w = m.IpmWriter(sink, blocked=bool(j % 2))
+                w.write({'MTI': '1240', 'DE2': '4' * 16})
+            else:
+                w = m.VbsWriter(sink, blocked=bool(j % 2))
+                w.write(b'other writer %d' % j)
+            if j % 5:
+                w.close()
+            else:
+                with w:
+                    pass
+        self.ctx.count('other writers finalised between two finalisations of the observed one', n)
+
     def snapshot(self):
         if self.path:
             self.f.flush()
@@ -126,6 +166,7 @@ class Driver:
         except Exception as ex:  # noqa - recorded, judged only for the first finalisation
             self.events.append(('close', type(ex).__name__))
         self.snapshots.append(self.snapshot())
+        self.others()
 
     def nest(self, tokens, pos, depth):
         try:
@@ -150,6 +191,7 @@ class Driver:
         except Exception as ex:  # noqa
             self.events.append((tokens[pos] if pos < len(tokens) else 'exit', type(ex).__name__))
         self.snapshots.append(self.snapshot())
+        self.others()
         return pos + 1
 
     def play_sequential(self):
@@ -182,6 +224,7 @@ class Driver:
             except Exception as ex:  # noqa
                 self.events.append((tok, type(ex).__name__))
             self.snapshots.append(self.snapshot())
+            self.others()
         final = self.snapshot()
         if self.path:
             self.f.close()
@@ -290,6 +333,8 @@ def require(m):
     shapes = set(m['classes'].get('history shapes', ()))
     if set(m['classes'].get('realisations', ())) != {'nested', 'sequential'}:
         reasons.append('both realisations (nested / sequential with-blocks) not driven')
+    if not m['counters'].get('other writers finalised between two finalisations of the observed one') and not m['violations']:
+        reasons.append('no history with other writers in between')
     for need in ('c', 'e', 'x', 'b', 'ce', 'ec', 'cc', 'ee', 'cx', 'xc', 'cb', 'bc', 'ece', 'cxc'):
         if need not in shapes:
             reasons.append('history %s never played' % need)
